@@ -64,6 +64,22 @@ func Instrument(filename string, src []byte) ([]byte, int, error) {
 				cc := c.(*ast.CaseClause)
 				cc.Body = rewriteList(cc.Body, point, visitStmt)
 			}
+		case *ast.ExprStmt:
+			// X.Lock() / X.RLock() become cooperative: simyield.Acquire(X.TryLock)
+			if call, ok := st.X.(*ast.CallExpr); ok && len(call.Args) == 0 {
+				if sel, ok := call.Fun.(*ast.SelectorExpr); ok && (sel.Sel.Name == "Lock" || sel.Sel.Name == "RLock") {
+					try := "TryLock"
+					if sel.Sel.Name == "RLock" {
+						try = "TryRLock"
+					}
+					st.X = &ast.CallExpr{
+						Fun:  &ast.SelectorExpr{X: ast.NewIdent("simyield"), Sel: ast.NewIdent("Acquire")},
+						Args: []ast.Expr{&ast.SelectorExpr{X: sel.X, Sel: ast.NewIdent(try)}},
+					}
+					return
+				}
+			}
+			visitExprs(s)
 		default:
 			visitExprs(s)
 		}
